@@ -919,7 +919,7 @@ def check_result_protocol(ctx, W, o, joiner):
     # ---- get(): how is the read of the result synchronised with the task? (U: not at all, F: the flag was seen true, J: joined)
     ginst = inst0 + ': get()'
     gg = tu.cfg(getf)
-    gproblems, relies, weak_loads = [], [], []
+    gproblems, relies, weak_loads, blocked = [], [], [], []
     gbusy = set()
 
     def touches_res(fn, prefix, depth=0):
@@ -945,6 +945,8 @@ def check_result_protocol(ctx, W, o, joiner):
         if x is None:
             return [st]
         if joiner.is_join_call(o, x):
+            if st in ('U', 'F') and not joiner.trivially_joined(o) and not gbusy:
+                blocked.append((st, x))
             return ['J']
         if st != 'J' and x.get('kind') == 'CXXMemberCallExpr':
             sd0, obj0, args0 = tu.call_parts(x)
@@ -959,8 +961,10 @@ def check_result_protocol(ctx, W, o, joiner):
                     return ['J']
                 if sub and all(y in ('J', 'F') for y in sub):
                     return ['F']
+                if sub and len(set(sub)) == 1:
+                    return [list(sub)[0]]
         if denotes_res(x) and not gbusy:
-            if st == 'U':
+            if st in ('U', 'N'):
                 gproblems.append(('get-unsynchronised', 'get() reads the result `%s` at %s on a path where neither the completion flag '
                                   'was seen true (with acquire or stronger) nor the task was waited for: it can return a value that is '
                                   'not (completely) written yet' % (resn, tu.loc(x)), tu.loc(x)))
@@ -969,15 +973,26 @@ def check_result_protocol(ctx, W, o, joiner):
         return [st]
 
     def grefine(blk, si, st):
-        if blk.cond and len(blk.succ) == 2 and st == 'U':
+        if blk.cond and len(blk.succ) == 2 and st in ('U', 'N'):
             r = flag_read(tu, rec, tu.node(blk.cond))
-            if r is not None and r[0] == flag and ((si == 0) == (r[2] == 1)):
-                if r[1] in (2, 4, 5):
-                    return ['F']
-                weak_loads.append((r[3], r[1]))
+            if r is not None and r[0] == flag:
+                if (si == 0) == (r[2] == 1):
+                    if r[1] in (2, 4, 5):
+                        return ['F']
+                    weak_loads.append((r[3], r[1]))
+                else:
+                    return ['N']        # the flag was seen false: the task is not finished, blocking is legitimate
         return [st]
     X.exit_states(gg, ['J' if joiner.trivially_joined(o) else 'U'], gtransfer, grefine)
     relies = sorted(set(relies))
+    for st0, x0 in blocked:
+        gproblems.append(('get-blocks-although-finished', 'get() calls the blocking wait at %s on a path where the completion flag `%s` %s: '
+                          'finished()==true has to imply that get() returns the value without blocking, but the backend wait can still '
+                          'block after the task body has set the flag (task_group releases its waiters only after destroying the functor '
+                          'and the closure state it owns, thread::join waits for thread exit, the enkiTS wait runs other queued tasks). '
+                          'The wait has to be skipped when the flag is already set' % (
+                              tu.loc(x0), flagn, 'was just seen true' if st0 == 'F' else 'has not been tested (it may already be true)'),
+                          tu.loc(x0)))
     # ---- closure: invoke once -> store result -> store flag(true); no result access afterwards
     #      (member functions of the same class called on `this` are inlined, the task function may be passed on as an argument)
     n += 1
@@ -4299,6 +4314,109 @@ def check_steal_loops(ctx, W, tu, only_prefix=None, verdicts=None):
 R15 = 'R-C02-15'
 
 
+RX_CAS = re.compile(r'^(enki::AtomicCompareAndSwap\w*|__sync_val_compare_and_swap|__sync_bool_compare_and_swap)$')
+
+
+def check_slot_claims(ctx, W, tu, fns, flagarr, bufarrs, stores, const_arrays, verdicts):
+    """several parties (stealing readers at the back, the writer at the front) take items out of the ring: the copy of buffer[i]
+    is dominated by the success edge of an atomic compare-and-swap on flags[i], not by a plain test of the flag"""
+    n = 0
+    claimers = []
+    for f in fns:
+        store_lhs = set()
+        for arr, ix, rhs, x, pos in stores.get(f['id'], []):
+            lhs = tu.kids(x)[0] if x.get('kind') == 'BinaryOperator' else tu.kids(x)[1]
+            for y in tu.walk(lhs):
+                store_lhs.add(y.get('id'))
+        reads = [x for b, i, x in tu.cfg(f).stmts() if x.get('kind') == 'ArraySubscriptExpr' and x['id'] not in store_lhs and
+                 member_of_this(tu, tu.kids(x)[0]) in bufarrs]
+        if reads:
+            claimers.append((f, reads))
+    if len(claimers) < 2:
+        return 0
+    for f, reads in sorted(claimers, key=lambda t: t[0]['q']):
+        g = tu.cfg(f)
+        for rd in reads:
+            n += 1
+            ix = tu.kids(rd)[1]
+            name = short_name(f['q'])
+            inst = '[%s] %s: item copied out of the slot at %s' % (tu.config, f['q'], tu.loc(rd)) + W.tag
+            found = []
+
+            def src_of(e):
+                """'cas' / 'plain' if e obtains the flag of slot ix by compare-and-swap / by a plain load"""
+                c = core(tu, e)
+                if c is None:
+                    return None
+                if c.get('kind') == 'CallExpr' and RX_CAS.match(tu.sd(c).get('q', '')):
+                    a0 = X.addr_of(tu, tu.call_parts(c)[2][0]) if tu.call_parts(c)[2] else None
+                    ca = core(tu, a0) if a0 is not None else None
+                    if ca is not None and ca.get('kind') == 'ArraySubscriptExpr' and member_of_this(tu, tu.kids(ca)[0]) == flagarr \
+                            and same_expr(tu, tu.kids(ca)[1], ix):
+                        return 'cas'
+                if c.get('kind') == 'ArraySubscriptExpr' and member_of_this(tu, tu.kids(c)[0]) == flagarr and same_expr(tu, tu.kids(c)[1], ix):
+                    return 'plain'
+                return None
+
+            def transfer(blk, idx, e, st, rd=rd):
+                if e[0] != 'S':
+                    return [st]
+                x = tu.node(e[1])
+                if x is None:
+                    return [st]
+                claimed, srcs = st
+                if x['id'] == rd['id']:
+                    found.append(claimed)
+                    return [st]
+                k = x.get('kind')
+                tgt = val = None
+                if k == 'BinaryOperator' and x.get('opcode') == '=':
+                    tgt, val = decl_ref(tu, tu.kids(x)[0]), tu.kids(x)[1]
+                elif k == 'DeclStmt':
+                    for vd in tu.kids(x):
+                        if vd.get('kind') == 'VarDecl' and tu.kids(vd):
+                            tgt, val = vd['id'], tu.kids(vd)[-1]
+                if tgt is not None and val is not None:
+                    sv = src_of(val)
+                    d = dict(srcs)
+                    if sv:
+                        d[tgt] = sv
+                    else:
+                        d.pop(tgt, None)
+                    return [(claimed, tuple(sorted(d.items())))]
+                return [st]
+
+            def refine(blk, si, st):
+                claimed, srcs = st
+                if blk.cond and len(blk.succ) == 2:
+                    c = deciding(tu, tu.node(blk.cond))
+                    if c is not None and c.get('kind') == 'BinaryOperator' and c.get('opcode') in ('==', '!='):
+                        for a0, b0 in ((tu.kids(c)[0], tu.kids(c)[1]), (tu.kids(c)[1], tu.kids(c)[0])):
+                            if const_value(tu, b0) is None:
+                                continue
+                            how = dict(srcs).get(decl_ref(tu, a0)) or src_of(a0)
+                            if how and ((si == 0) == (c['opcode'] == '==')):
+                                return [(how, srcs)]
+                return [st]
+            X.exit_states(g, [(None, ())], transfer, refine)
+            kinds = set(found)
+            if verdicts is not None:
+                verdicts.append((name + '#claim', True if 'plain' in kinds else (False if kinds == {'cas'} else None)))
+                continue
+            if kinds == {'cas'}:
+                ctx.ok(R15, inst, 'dominated by the success of an atomic compare-and-swap on the flag of the same slot', tu.loc(rd))
+            elif 'plain' in kinds:
+                ctx.violation(R15, inst, 'the item is copied out of the slot at %s after the flag of that slot was only tested with a plain load '
+                              '(and then overwritten with a plain store): %d functions take items out of this ring concurrently (%s), so two of '
+                              'them can see the flag readable and both take the same item -- that task runs twice and its running count '
+                              'goes negative. The slot has to be claimed with a compare-and-swap'
+                              % (tu.loc(rd), len(claimers), ', '.join(sorted(short_name(c0[0]['q']).split('::')[-1] for c0 in claimers))), tu.loc(rd),
+                              key='%s|%s|%s|slot-claimed-without-cas' % (R15, tu.fn_file(f), name))
+            else:
+                ctx.undecided(R15, inst, 'cannot see how the slot is claimed before the item is copied out', tu.loc(rd))
+    return n
+
+
 def check_slot_protocol(ctx, W, tu, only_prefix=None, verdicts=None):
     """classes with a buffer array and a flags array indexed alike: the writer stores into buffer[i] only on a path where
     flags[i] was compared equal to the constant the readers store after they have copied the item"""
@@ -4333,6 +4451,9 @@ def check_slot_protocol(ctx, W, tu, only_prefix=None, verdicts=None):
         if len(flags) != 1:
             continue
         flagarr = flags[0]
+        bufarrs = {arr for f in fns for arr, ix, rhs, x, pos in stores.get(f['id'], [])
+                   if arr != flagarr and decl_ref(tu, rhs) in {p['id'] for p in f['params']}}
+        n += check_slot_claims(ctx, W, tu, fns, flagarr, bufarrs, stores, const_arrays, verdicts)
         for f in sorted(fns, key=lambda f: f['q']):
             pids = {p['id'] for p in f['params']}
             for arr, ix, rhs, x, pos in stores.get(f['id'], []):
@@ -4586,7 +4707,8 @@ EXPECT_PROGRESS = {'rkverif::c02w::Handshake::publishThenWake#progress': False, 
 EXPECT_REAP = {'rkverif::c02w::reapOutsideLock': False, 'rkverif::c02w::reapAfterUnlock': False, 'rkverif::c02w::reapSnapshot': True,
                'rkverif::c02w::sweepThenSchedule': False}
 EXPECT_STEAL = {'rkverif::c02w::Stealer::stealAll': False, 'rkverif::c02w::Stealer::stealShort': True, 'rkverif::c02w::Stealer::stealFromNext': False}
-EXPECT_SLOT = {'rkverif::c02w::SlotRing::writeChecked': False, 'rkverif::c02w::SlotRing::writeByCounters': True}
+EXPECT_SLOT = {'rkverif::c02w::SlotRing::writeChecked': False, 'rkverif::c02w::SlotRing::writeByCounters': True,
+               'rkverif::c02w::SlotRing::readClaimed#claim': False, 'rkverif::c02w::SlotRing::readTestThenStore#claim': True}
 EXPECT_ORDER_STATIC = {'w_registryBefore': False, 'w_registryAfter': True, 'w_registryLocal': True, 'w_registryHeap': False}
 EXPECT_REINIT = {'rkverif::c02w::reinitKeepsScheduler': True, 'rkverif::c02w::reinitFresh': False, 'rkverif::c02w::reinitDrained': False}
 EXPECT_HANDSHAKE = {'rkverif::c02w::Handshake::sleepRegisteredFirst': False, 'rkverif::c02w::Handshake::sleepCheckedFirst': True,
